@@ -741,3 +741,61 @@ theorem run_append (P : Params) (s : Sys) (a b : List Nat) : run P s (a ++ b) = 
   | cons i is ih => simp only [List.cons_append, run]; exact ih _
 
 end Rs.ConcV
+
+namespace Rs.ConcV
+open Rs
+
+/-- once the entry for a column setting holds `v`, every `map()` with that setting in a sequential run answers `v` -/
+theorem map_answers_from (id : Nat) (inner : Src) (hnc : inner.NoCached) (col : Bool) : ∀ (calls : List RCall3) (σ : Store) (v : Option SMap),
+    σ.get? (id, ⟨col, false⟩) = some v →
+    ∀ p ∈ (runRoot3 id inner calls σ).1, p.1 = .io (col, .map) → p.2 = .io (.map v) := by
+  intro calls
+  induction calls with
+  | nil => intro σ v _ p hp; simp [runRoot3] at hp
+  | cons c cs ih =>
+    intro σ v hv p hp hc
+    simp only [runRoot3, List.mem_cons] at hp
+    rcases hp with rfl | hp
+    · simp only at hc
+      subst hc
+      simp only [rootCall3, rootCall2, Src.map, hv]
+    · exact ih _ v (rootCall3_keeps id inner hnc c σ _ v hv) p hp hc
+
+/-- **all `map()` answers for one column setting in a sequential run are the same map**, whatever the store the run starts from -/
+theorem map_answers_agree (id : Nat) (inner : Src) (hnc : inner.NoCached) (col : Bool) : ∀ (calls : List RCall3) (σ : Store),
+    ∀ p ∈ (runRoot3 id inner calls σ).1, ∀ q ∈ (runRoot3 id inner calls σ).1,
+      p.1 = .io (col, .map) → q.1 = .io (col, .map) → p.2 = q.2 := by
+  intro calls
+  induction calls with
+  | nil => intro σ p hp; simp [runRoot3] at hp
+  | cons c cs ih =>
+    intro σ p hp q hq hpc hqc
+    cases hg : σ.get? (id, ⟨col, false⟩) with
+    | some v =>
+      rw [map_answers_from id inner hnc col _ σ v hg p hp hpc, map_answers_from id inner hnc col _ σ v hg q hq hqc]
+    | none =>
+      -- a `map(col)` at the head stores its answer
+      have hhead : c = .io (col, .map) →
+          (rootCall3 id inner c σ).2.get? (id, ⟨col, false⟩) = some ((inner.map ⟨col, false⟩ σ).1)
+          ∧ (rootCall3 id inner c σ).1 = .io (.map (inner.map ⟨col, false⟩ σ).1) := by
+        intro hc
+        subst hc
+        simp only [rootCall3, rootCall2, Src.map, hg]
+        have hm := Src.map_nc inner ⟨col, false⟩ σ hnc
+        have h1 : (inner.map ⟨col, false⟩ σ).2 = σ := by rw [hm]
+        rw [h1]
+        exact ⟨insertNew_self σ _ _ hg, trivial⟩
+      simp only [runRoot3, List.mem_cons] at hp hq
+      rcases hp with rfl | hp <;> rcases hq with rfl | hq
+      · rfl
+      · simp only at hpc
+        obtain ⟨h1, h2⟩ := hhead hpc
+        rw [map_answers_from id inner hnc col _ _ _ h1 q hq hqc]
+        exact h2
+      · simp only at hqc
+        obtain ⟨h1, h2⟩ := hhead hqc
+        rw [map_answers_from id inner hnc col _ _ _ h1 p hp hpc]
+        exact h2.symm
+      · exact ih _ p hp q hq hpc hqc
+
+end Rs.ConcV
